@@ -111,9 +111,15 @@ func digest(n *nk.Node) (string, uint64, error) {
 	return fmt.Sprintf("%x", h.Sum(nil)[:12]), seq, nil
 }
 
+// one step of the follower's life = at most one inject, then at most one block,
+// then at most one pool clean-up (each a database commit)
 type step struct {
-	inject *coin.Transaction
-	block  *coin.SignedBlock
+	inject   *coin.Transaction
+	injectID int
+	block    *coin.SignedBlock
+	confirms []int // ids of the block's txns that may be in the pool
+	kills    []int // ids of pool txns spending an output this block spends
+	cleanup  bool  // the periodic RemoveInvalidUnconfirmed
 }
 
 func deliver(n *nk.Node, steps []step) {
@@ -124,7 +130,23 @@ func deliver(n *nk.Node, steps []step) {
 		if s.block != nil {
 			Guard(func() { n.V.ExecuteSignedBlock(*s.block) })
 		}
+		if s.cleanup {
+			Guard(func() { n.V.RemoveInvalidUnconfirmed() })
+		}
 	}
+}
+
+// the state after the periodic pool clean-up every running node performs:
+// "the same state" is compared there (Coq: settle)
+func settledDigest(n *nk.Node) (string, uint64, error) {
+	var err error
+	if Guard(func() { _, err = n.V.RemoveInvalidUnconfirmed() }) {
+		return "", 0, fmt.Errorf("panic in RemoveInvalidUnconfirmed")
+	}
+	if err != nil {
+		return "", 0, err
+	}
+	return digest(n)
 }
 
 func run(args []string) error {
@@ -183,9 +205,10 @@ func run(args []string) error {
 		// the same address: the per-address history index must hold them all)
 		nt := 1 + r.Intn(3)
 		var t coin.Transaction
+		var in coin.UxOut
 		for k := 0; k < nt && len(unspent) > 0; k++ {
 			i := r.Intn(len(unspent))
-			in := unspent[i]
+			in = unspent[i]
 			unspent = append(unspent[:i], unspent[i+1:]...)
 			t = w.Spend(coin.UxArray{in}, headTime, nk.SpendOpts{Fee: "min", NOut: 1 + r.Intn(3)})
 			if _, _, err := pub.V.InjectForeignTransaction(t); err != nil {
@@ -204,9 +227,26 @@ func run(args []string) error {
 			unspent = append(unspent, coin.CreateUnspents(sb.Head, tt)...)
 		}
 		tc, sc := t, sb
-		st := step{block: &sc}
-		if r.Chance(70) {
-			st.inject = &tc // the follower hears about the txn before the block (a pool commit)
+		id := len(steps) + 1
+		st := step{block: &sc, confirms: []int{id}}
+		switch m := r.Intn(100); {
+		case m < 40 && b != 0:
+			// the follower hears about the txn before the block (a pool commit)
+			st.inject, st.injectID = &tc, id
+		case m < 80 || b == 0:
+			// the follower hears about ANOTHER spend of the same output (never seen by the
+			// publisher): the block makes it invalid, it stays in the pool bucket until the
+			// next clean-up - by Init on a restart, or by the periodic clean-up
+			alt := w.Spend(coin.UxArray{in}, headTime, nk.SpendOpts{Fee: "min", NOut: 1 + r.Intn(3)})
+			if alt.Hash() != tc.Hash() {
+				st.inject, st.injectID = &alt, 1000+id
+				st.kills = []int{1000 + id}
+				hist.Add("life:conflicting-pool-txn")
+			}
+		}
+		if r.Chance(25) {
+			st.cleanup = true
+			hist.Add("life:cleanup")
 		}
 		steps = append(steps, st)
 	}
@@ -214,7 +254,7 @@ func run(args []string) error {
 	{
 		in := unspent[r.Intn(len(unspent))]
 		t := w.Spend(coin.UxArray{in}, when, nk.SpendOpts{Fee: "min", NOut: 1})
-		steps = append(steps, step{inject: &t})
+		steps = append(steps, step{inject: &t, injectID: len(steps) + 1})
 	}
 	pub.Close()
 
@@ -237,7 +277,8 @@ func run(args []string) error {
 		return err
 	}
 	deliver(fol, steps)
-	finalDigest, finalSeq, err := digest(fol)
+	dbutil.VerifAfterCommit = nil
+	finalDigest, finalSeq, err := settledDigest(fol)
 	if err != nil {
 		return err
 	}
@@ -399,8 +440,11 @@ func run(args []string) error {
 					boundaryDigest[c.commit] = d
 				}
 				deliver(n, steps)
-				fd, _, _ := digest(n)
-				ob.finalEq = fd == finalDigest
+				fd, _, ferr := settledDigest(n)
+				if ferr != nil {
+					ob.errS = "final digest: " + ferr.Error()
+				}
+				ob.finalEq = ferr == nil && fd == finalDigest
 				n.Close()
 			}
 		}
@@ -421,11 +465,15 @@ func run(args []string) error {
 	// the work list of the model script
 	var work []string
 	for i, s := range steps {
+		_ = i
 		if s.inject != nil {
-			work = append(work, fmt.Sprintf("Inject %d", i+1))
+			work = append(work, fmt.Sprintf("Inject %d", s.injectID))
 		}
 		if s.block != nil {
-			work = append(work, fmt.Sprintf("ExecBlock %d [%d]", s.block.Head.BkSeq, i+1))
+			work = append(work, fmt.Sprintf("ExecBlock %d %s %s", s.block.Head.BkSeq, zl(s.confirms), zl(s.kills)))
+		}
+		if s.cleanup {
+			work = append(work, "Cleanup")
 		}
 	}
 	o.Raw("Definition c08_work : list cop := " + List(work) + ".\n")
@@ -467,13 +515,21 @@ func run(args []string) error {
 		o.Count(fmt.Sprint("crash", c.commit, c.npages, c.j, c.mw), c.data != nil)
 	}
 	o.Def("cases_crash", "Z * Z * Z * meta_write * Z * bool * bool * bool * bool * Z", crashItems)
-	o.Side["rule"] = "one scripted follower life-cycle (create db, genesis, pool updates, block acceptances, a txn left pending) with an image at every commit boundary reported by the dbutil hook; crash states = every boundary + inside every commit prefixes of the dirty-page writes (quick: 0, 1, half, all; thorough: every prefix) with the meta page missing or torn; each restarted on the real code (forced CheckDatabase under a 20 s watchdog, visor.New+Init), then everything re-delivered; non-trivial = image exists on disk; distinct by (commit, pages written, meta)"
+	o.Side["rule"] = "one scripted follower life-cycle (create db, genesis, pool updates incl. pool txns that a later block makes invalid, block acceptances, periodic pool clean-ups, a txn left pending) with an image at every commit boundary reported by the dbutil hook; crash states = every boundary + inside every commit prefixes of the dirty-page writes (quick: 0, 1, half, all; thorough: every prefix) with the meta page missing or torn; each restarted on the real code (forced CheckDatabase under a 20 s watchdog, visor.New+Init), then everything re-delivered and the state compared after the pool clean-up (RemoveInvalidUnconfirmed) on both nodes; non-trivial = image exists on disk; distinct by (commit, pages written, meta)"
 	o.Side["distribution"] = hist.Sorted()
 	o.Side["samples"] = crashJSON[:min(len(crashJSON), 8)]
 	o.Side["cases"] = map[string]interface{}{"crash": crashJSON, "abs": absJSON}
 	o.Side["blocks"] = nBlocks
 	o.Side["commit_boundaries"] = len(images)
 	return o.Write(f.Out, f.JSON)
+}
+
+func zl(xs []int) string {
+	var ss []string
+	for _, x := range xs {
+		ss = append(ss, fmt.Sprint(x))
+	}
+	return "[" + strings.Join(ss, "; ") + "]"
 }
 
 func min(a, b int) int {
